@@ -47,7 +47,7 @@ class Script:
     """Behaviour of the generated callbacks; decisions are drawn lazily, in invocation order."""
 
     def __init__(self, ctx, am, budget=0, actions=("send", "raise"), send_events=("go",), values=None,
-                 yields=0, guard_kind="bool", where=None, measure_depth=False, lib_root=None):
+                 yields=0, guard_kind="bool", where=None, measure_depth=False, lib_root=None, policy=None):
         self.ctx = ctx
         self.am = am
         self.budget = budget
@@ -68,33 +68,36 @@ class Script:
         self.measure_depth = measure_depth
         self.lib_root = lib_root
         self.unawaited = []
+        self.policy = policy
+        self.taken = []
         self.custom = None  # optional hook(script, idx, info) -> ("send", ev) | ("raise",) | None, overrides draws
 
     # -- called from generated callbacks (machines.World protocol) --------------------------------
     def _begin(self, provider, name, args, kwargs):
-        ev = kwargs.get("event")
-        info = {
-            "event": None if ev is None else str(ev),
-            "state": getattr(kwargs.get("state"), "id", None),
-            "source": getattr(kwargs.get("source"), "id", None),
-            "target": getattr(kwargs.get("target"), "id", None),
-        }
-        machine = self.sm if self.sm is not None else kwargs.get("machine")
-        try:
-            info["cur"] = machine.current_state.id
-        except Exception:
-            info["cur"] = None
-        if self.measure_depth:
-            info["depth"] = lib_depth(self.lib_root)
-        info["args"] = args
-        info["kwargs"] = kwargs
-        idx = self.n
-        self.n += 1
-        key = (provider, name, info["event"])
-        occ = self.occ.get(key, 0)
-        self.occ[key] = occ + 1
-        label = f"{provider}.{name}@{info['event']}#{occ}"
-        self.log.append(("cb", idx, provider, name, info))
+        with self.ctx.notracing():  # bookkeeping on concrete objects only; nothing symbolic is touched here
+            ev = kwargs.get("event")
+            info = {
+                "event": None if ev is None else str.__str__(ev),
+                "state": getattr(kwargs.get("state"), "id", None),
+                "source": getattr(kwargs.get("source"), "id", None),
+                "target": getattr(kwargs.get("target"), "id", None),
+            }
+            machine = self.sm if self.sm is not None else kwargs.get("machine")
+            try:
+                info["cur"] = machine.current_state.id
+            except Exception:
+                info["cur"] = None
+            if self.measure_depth:
+                info["depth"] = lib_depth(self.lib_root)
+            info["args"] = args
+            info["kwargs"] = kwargs
+            idx = self.n
+            self.n += 1
+            key = (provider, name, info["event"])
+            occ = self.occ.get(key, 0)
+            self.occ[key] = occ + 1
+            label = f"{provider}.{name}@{info['event']}#{occ}"
+            self.log.append(("cb", idx, provider, name, info))
         act = self._decide_action(idx, provider, name, info, label, guard=name in self.guard_names)
         if act is not None and act[0] == "raise":
             self.log.append(("raise", idx))
@@ -172,13 +175,16 @@ class Script:
         opts = [None]
         for a in self.actions:
             if a == "send":
-                if not guard:
+                if not guard and not (self.policy == "send-then-raise" and self.taken):
                     opts += [("send", e) for e in self.send_events]
             else:
                 opts.append(("raise",))
+        if len(opts) == 1:
+            return None
         d = opts[self.ctx.choose(len(opts), f"act:{label}")]
         if d is not None:
             self.budget -= 1
+            self.taken.append(d[0])
         return d
 
     def _value(self, name, label):
